@@ -340,6 +340,19 @@ async def""", ["C14", "C02"]),
 REPLACE_ALL = {"helper-no-result-check"}
 
 # benign variants: behaviour-preserving edits that must not raise an alarm in any property
+RENAMES = [
+    ("run_subgraph", "execute_subgraph"), ("get_multiple_nodes_aliases", "resolve_aliases"), ("alias_to_ids", "resolve_alias"),
+    ("make_subgraph", "select_subgraph"), ("async_execute", "schedule"), ("sync_execute", "run_schedule"),
+    ("wait_for_finished_nodes", "collect_finished"), ("assign_compound_priority", "compute_priorities"),
+    ("remove_root_node", "pop_root"), ("executed", "was_executed"), ("_pre_setup", "_setup_graph"),
+    ("include_debug_nodes", "pull_debug_nodes"), ("extend_graph_with_debug_nodes", "debug_gate"), ("make_active", "build_activation"),
+    ("from_exec_nodes", "build_from_nodes"), ("add_exec_node", "register_node"), ("minimal_induced_subgraph", "induced_closure"),
+    ("compound_priority", "total_priority"), ("setup_nodes", "setup_ids"), ("debug_nodes", "debug_ids"), ("graph_ids", "id_graph"),
+    ("input_uxns", "input_refs"), ("DAG_PREFIX", "PREFIX_STACK"), ("copy_non_setup_xns", "copy_nodes"),
+    ("_only_setup_nodes", "_keep_setup"), ("_run_setup", "_exec_setup"), ("to_thread_in_executor", "submit_async"),
+    ("_xn_active_in_call", "is_active_now"), ("_conf_to_values", "reconfigured_values"), ("extend_results_with_args", "bind_arguments"),
+]
+
 BENIGN: List[Tuple[str, str, List[Tuple[str, str]]]] = [
     ("rename-setup-helpers", D, [("_run_setup", "_execute_setup_graph"), ("_only_setup_nodes", "_drop_ordinary_nodes")]),
     ("return-node-id-local", N, [('    suffix = make_suffix(name_or_order)\n    return f"{func.__qualname__}{RETURN_NAME_SEP}{suffix}"',
@@ -586,6 +599,21 @@ def build_jobs(root: str, pids: List[str]) -> List[tuple]:
                 break
         for pid in pids:
             jobs.append(("benign", label, pid, root, ov))
+    # internal helpers and attributes renamed throughout the package (twzsa/roles.py finds them by structure)
+    import re as _re
+
+    for old_, new_ in RENAMES:
+        ov2: Dict[str, str] = {}
+        for dp, dn, fn in os.walk(os.path.join(root, "tawazi")):
+            for f_ in fn:
+                if f_.endswith(".py"):
+                    rel = os.path.relpath(os.path.join(dp, f_), root)
+                    src_ = _read(root, rel)
+                    new_src = _re.sub(r"\b%s\b" % _re.escape(old_), new_, src_)
+                    if new_src != src_:
+                        ov2[rel] = new_src
+        for pid in pids:
+            jobs.append(("benign", f"rename({old_}->{new_})", pid, root, ov2 or None))
     seeded = os.path.join(VERIF_DIR, "seeded")
     if os.path.isdir(seeded):
         for sid in sorted(os.listdir(seeded)):
